@@ -183,8 +183,11 @@ def run_ops(rng, inst, thorough):
         u = inst.bdd(inst.preds[name])
         rec('support', name, None, call(ctx.support, u))
         for S in pick_subsets(names, rng, lim):
-            rec('exist', name, S, call(ctx.exist, set(S), u))
-            rec('forall', name, S, call(ctx.forall, set(S), u))
+            # cost of evaluating the model: 2^(bits + quantified bits)
+            k = sum(len(bc.var_bitnames(x, ctx.vars[x])) for x in S)
+            if inst.n + k <= 15:
+                rec('exist', name, S, call(ctx.exist, set(S), u))
+                rec('forall', name, S, call(ctx.forall, set(S), u))
             # substitution of (representable) values
             d = {x: rand_value(rng, ctx.vars[x]) for x in S}
             rec('let_vals', name, d, call(ctx.let, dict(d), u))
@@ -578,8 +581,8 @@ def enumerate_terms(rng, thorough):
 
 def correspond(ctx):
     mism = []
-    n_inst = 150 if ctx.thorough else 8
-    max_bits = 10 if ctx.thorough else 8
+    n_inst = 64 if ctx.thorough else 8
+    max_bits = 9 if ctx.thorough else 8
     insts = []
     for i in range(n_inst):
         backend = 'cudd' if i % 2 else 'autoref'
